@@ -196,7 +196,16 @@ def run(run: common.Run):
             run.hist[f"driver={prof['driver']}"] += 1
             run.nontrivial.add((f, dt, ndtok(nd), str(prof)))
             flat = bvals.reshape(-1)
-            lines.append(f'convert {dt} {ndtok(nd)} ' + ' '.join(xtok(v) for v in flat))
+            nd_model = nd
+            if prof['driver'] == 'PNG' and nd is not None and not dt.startswith('float') and \
+                    not (np.isfinite(nd) and float(nd).is_integer() and RANGE[dt][0] <= nd <= RANGE[dt][1]):
+                # rasterio creates PNG files through an in-memory copy that silently drops a nodata value the data type
+                # cannot hold (GTiff creation raises instead): the dataset's nodata is then None and homonim writes a mask.
+                # Driver behaviour, not homonim's: the expected file is the model's nodata=None conversion (or an error).
+                nd_model = None
+                case['_png_dropped_nodata'] = True
+                run.hist['PNG: un-castable nodata dropped by the driver, compared as nodata=None'] += 1
+            lines.append(f'convert {dt} {ndtok(nd_model)} ' + ' '.join(xtok(v) for v in flat))
             if err is not None:
                 impls.append('err')
             else:
@@ -214,7 +223,7 @@ def run(run: common.Run):
             return
         for case, line, m, im in zip(cases, lines, replies, impls):
             run.lines_compared += 1
-            bad = compare_file(case, m, im)
+            bad = None if (case.get('_png_dropped_nodata') and im == 'err') else compare_file(case, m, im)
             if bad:
                 run.fail(case, bad, signature=dict(kind='file-encoding', dtype=case['dtype']))
         run.sample(dict(fusion=f, model=model, shape=list(bvals.shape), n_profiles=len(cases),
